@@ -536,6 +536,14 @@ fn gutter_blocks(out: &str, bar: char) -> Vec<Vec<(usize, String)>> {
         let is_gutter = rest_t.starts_with(bar) && (digits.is_empty() || rest.starts_with(' '));
         if is_gutter {
             in_block = true;
+            // a gutter line that carries TEXT of the report (not a marker line, not empty) — `| This value comes indirectly
+            // from the anchor at …` — is the heading of the next window: the windows of a two-location error are two blocks
+            if digits.is_empty() {
+                let text = rest_t[bar.len_utf8()..].trim();
+                if !text.is_empty() && !text.starts_with('^') && !text.starts_with('-') && !text.starts_with('=') && !cur.is_empty() {
+                    blocks.push(std::mem::take(&mut cur));
+                }
+            }
             if !digits.is_empty() {
                 let content = rest_t[bar.len_utf8()..].strip_prefix(' ').unwrap_or(&rest_t[bar.len_utf8()..]);
                 cur.push((digits.parse().unwrap_or(0), content.to_string()));
@@ -982,6 +990,37 @@ fn oracle(a: &Args, rng: &mut Rng, sink: &mut Sink) -> (u64, BTreeMap<String, u6
             }
             Some(Ok(_)) => o.count("parsed_ok"),
             None => o.fail("C17-entry-panic", "from_str_valid panicked", &hex(&doc), "panic", "Ok or Err"),
+        }
+    }
+    // two-location (alias) errors: a type error inside an aliased value is rendered with two windows (use site, anchor
+    // definition); the anchor sits on a LONG line, 0..4 lines away from the alias (one shared region / two regions);
+    // both windows are subject to the width and the 5-line rule
+    {
+        #[derive(Debug, Deserialize)]
+        #[allow(dead_code)]
+        struct ASettings { note: String, limit: u64, other: String }
+        #[derive(Debug, Deserialize)]
+        #[allow(dead_code)]
+        struct ADoc { settings: ASettings, #[serde(default)] a: i32, #[serde(default)] b: i32, #[serde(default)] c: i32, #[serde(default)] d: i32, enabled: bool }
+        for long in [40usize, 300] {
+            for dist in 0..5usize {
+                let mut doc = format!("settings: {{note: \"{}\", limit: &lim 4096, other: \"{}é\"}}\n", "n".repeat(long), "o".repeat(long));
+                for (i, k) in ["a", "b", "c", "d"].iter().take(dist).enumerate() { doc.push_str(&format!("{k}: {i}\n")); }
+                doc.push_str("enabled: *lim\n");
+                for radius in [1usize, 8, 64] {
+                    let mk = || { let mut op = Options::default(); op.crop_radius = radius; op.with_snippet = true; op };
+                    match guarded(|| serde_saphyr::from_str_with_options::<ADoc>(&doc, mk())) {
+                        Some(Err(e)) => { o.count("errors.str.alias_two_windows"); o.render_all("str/alias", &doc, &e, radius, false); }
+                        Some(Ok(_)) => o.count("parsed_ok"),
+                        None => o.fail("C17-entry-panic", "from_str_with_options panicked", &hex(&doc), "panic", "Ok or Err"),
+                    }
+                    match guarded(|| serde_saphyr::from_reader_with_options::<_, ADoc>(std::io::Cursor::new(doc.as_bytes()), mk())) {
+                        Some(Err(e)) => { o.count("errors.reader.alias_two_windows"); o.render_all("reader/alias", &doc, &e, radius, false); }
+                        Some(Ok(_)) => o.count("parsed_ok"),
+                        None => o.fail("C17-entry-panic", "from_reader_with_options panicked", &hex(&doc), "panic", "Ok or Err"),
+                    }
+                }
+            }
         }
     }
     // validation reports whose issue paths run through hostile map keys (YAML escapes for ESC / CSI / DEL / NEL / NUL /
